@@ -1,6 +1,6 @@
 """C10 - DecisionTreeLogisticRegression is a consistent tree of binary classifiers."""
 from vf import loader
-from vf.core import Clause, Outcome, Violation, require, np_scalars, with_np
+from vf.core import Clause, Outcome, Violation, require, np_scalars, with_np, with_sk
 from vf.estimators import CentroidClassifier, SkewedClassifier
 
 import numpy as np
@@ -203,6 +203,6 @@ def _cases(draw, tier="quick"):
 
 
 CLAUSES = [
-    Clause("tree", check, strategy=lambda tier: with_np(_cases(tier)), quick=4000, thorough=60000, quick_shards=16,
+    Clause("tree", check, strategy=lambda tier: with_sk(with_np(_cases(tier))), quick=4000, thorough=60000, quick_shards=16,
            doc="observable clauses + reference traversal of tree_"),
 ]
